@@ -172,6 +172,17 @@ func init() {
 		if !c.Expired() {
 			BFS(c, &HistFamily{Nmax: nrt, Insts: append(stdInsts([]uint8{0, 63}, []string{"even"})[1:], flagOffInsts()...), Or: HistOracle{Proofs: true, Prop: "C02", OnlyAfter: "roundtrip"}, RTBud: 1, PermLimit: 2}, 0)
 		}
+		// partial forests that verify-remember and PRUNE: every subset of what is still cached must be proven canonically
+		if !c.Expired() {
+			np := pick(c, 4, 5)
+			c.Cov.Bound["pruning_partial_forests"] = fmt.Sprintf("partial MapPollard TotalRows 0 and 63, Nmax=%d: blocks x Remember subsets, Verify(remember), Prune of every cached subset, one undo; every subset of the cached leaves requested; plus forward-only Nmax=%d with sets of size<=2", np, np+1)
+			for _, tr := range []uint8{0, 63} {
+				BFS(c, &PartialFamily{Nmax: np, TR: tr, UndoBud: 1, NoIngest: true, ProofOnly: true, Prop: "C02"}, 0)
+				if !c.Expired() {
+					BFS(c, &PartialFamily{Nmax: np + 1, TR: tr, NoIngest: true, SetLimit: 2, ProofOnly: true, Prop: "C02"}, 0)
+				}
+			}
+		}
 		queriedFamily(c, HistOracle{Proofs: true, ProofSets: "small", Prop: "C02"})
 		if !c.Expired() {
 			manyRootsFamily(c, "C02")
